@@ -177,12 +177,21 @@ def _short(hist):
     return ";".join(out)
 
 
+AV_LISTS = [[], ["Zeta", "Alpha"], ["b", "a", "c"], ["Server", "Server"], ["x"]]
+
+
 def identity_agreement_cases():
-    """identify_image(object) == identify_image(serialised dict) for every pool image x variant k."""
+    """identify_image(object) == identify_image(serialised dict) for every pool image x variant k,
+    and for unified images with every additional_variants list shape (unsorted, duplicates)."""
     cases = []
     for k in range(7):
         for n, (ident, sums) in POOL.items():
             cases.append({"kind": "ident", "k": k, "name": n})
+    for i, av in enumerate(AV_LISTS):
+        for unified in (True, False):
+            if av and not unified:
+                continue
+            cases.append({"kind": "ident", "k": 0, "name": "i1a", "av": av, "unified": unified})
     return cases
 
 
@@ -191,6 +200,9 @@ def eval_identity(case):
     m = Images()
     n, k = case["name"], case["k"]
     f = image_fields(n, POOL[n][0], POOL[n][1], k)
+    if "av" in case:
+        f["unified"] = case["unified"]
+        f["additional_variants"] = list(case["av"])
     img = make_image(m, f)
     out = []
     img.serialize(out)
@@ -199,6 +211,9 @@ def eval_identity(case):
     if tuple(a) != tuple(b):
         fails.append("identify_image(object)=%s differs from identify_image(dict)=%s" % (tuple(a), tuple(b)))
     exp = ident_fields(POOL[n][0], k)
+    if "av" in case:
+        exp["unified"] = case["unified"]
+        exp["additional_variants"] = list(case["av"])
     if [getattr(a, x, "<missing>") for x in IDENT_ATTRS] != [exp[x] for x in IDENT_ATTRS]:
         fails.append("identify_image(object)=%s is not the seven documented attributes %s" % (tuple(a), exp))
     return fails
